@@ -32,6 +32,7 @@ EXCEPTIONS = {
     ("ZSTD_compressStream2", "ZSTD_CCtx_reset"): CANT_FAIL_RESET,
     ("ZSTD_compressStream_generic", "ZSTD_CCtx_reset"): CANT_FAIL_RESET,
     ("ZSTD_initCCtx", "ZSTD_CCtx_reset"): "fresh context is in zcss_init: reset_parameters cannot fail (assert documents it)",
+    ("ZSTD_initStaticCCtx", "ZSTD_CCtx_reset"): "freshly zero-filled static context is in zcss_init: reset_parameters cannot fail (same idiom as ZSTD_initCCtx; added by fix de9d135)",
     ("ZSTD_compressStream_generic", "ZSTD_compressBound"): BOUND,
     ("ZSTD_compressBlock_internal", "ZSTD_entropyCompressSeqStore"): "cSize is compared with rleMaxLength (25) before the isError test: false for error codes; the error is then returned",
     ("ZSTD_compressBlock_targetCBlockSize_body", "ZSTD_compressSuperBlock"): "deliberate: compared with ERROR(dstSize_tooSmall) first (fallback to raw block), every other error forwarded",
